@@ -32,6 +32,13 @@ type SemRow struct {
 
 // EvalSpec evaluates the cases with TLC (sharded over processes).
 func EvalSpec(c *core.Ctx, cases []*SemCase, shards int) error {
+	var todo []*SemCase
+	for _, cs := range cases {
+		if cs.Expect == nil {
+			todo = append(todo, cs)
+		}
+	}
+	cases = todo
 	if len(cases) == 0 {
 		return nil
 	}
